@@ -358,6 +358,8 @@ def run(ctx):
     ctx.rule("R14.d", "who may rebind the class-level value: every store to `<x>.default` in param is a Parameter's own (`self.default = ...` inside a Parameter class: constructors, the "
                       "descriptor's __set__ behind its guard, compute_default, state fix-ups); nothing writes the `default` of another object", floor=1)
     default_rebound_by_the_parameter_only(ctx, "R14.d")
+    ctx.rule("R14.u", "the update route reaches the guard for every key: the loop of Parameters._update that assigns the keys has no `continue` and no conditional setattr", floor=1)
+    update_route_reaches_the_setter(ctx, "R14.u")
     from checks.shared import slot_set_model
     slot_set_model(ctx, "R14.s")
 
@@ -417,3 +419,27 @@ def default_rebound_by_the_parameter_only(ctx, rule):
                  key="%s::default-written-from-outside" % f.qualname, input="Cls.param.set_default('ro', v)   # ro = param.Number(1, readonly=True)")
     else:
         ctx.ok(rule, ctx.repo.func("param.parameterized.Parameter.__set__"), None, "all %d stores to `.default` are a Parameter's own (`self.default = ...` inside a Parameter class)" % n_self)
+
+
+def update_route_reaches_the_setter(ctx, rule):
+    """The update route: Parameters._update hands EVERY key it is given to `setattr` -- the only place where the constant /
+    read-only guard lives.  The loop that assigns the keys contains no `continue` and no other way round the `setattr`:
+    a key skipped because its value "is already in force" (equal, not identical) is accepted where a plain assignment of
+    the same object raises TypeError."""
+    f = ctx.repo.func("param.parameterized.Parameters._update")
+    loops = [st for st in ast.walk(f.node) if isinstance(st, ast.For) and any(isinstance(c, ast.Call) and norm(c.func) == "setattr" for c in ast.walk(st))]
+    ctx.require(loops, "Parameters._update no longer assigns its keys with setattr in a loop")
+    lp = loops[0]
+    skips = [n for n in ast.walk(lp) if isinstance(n, ast.Continue)]
+    # a setattr nested under a condition other than the unknown-name test is a way round as well
+    guarded = []
+    for st in lp.body:
+        if isinstance(st, ast.If) and any(isinstance(c, ast.Call) and norm(c.func) == "setattr" for c in ast.walk(st)):
+            guarded.append(st)
+    if skips or guarded:
+        at = (skips or guarded)[0]
+        ctx.fail(rule, f, at, "the key loop of Parameters._update can pass a key by without calling setattr (`%s`): the constant / read-only guard of the setter is never consulted for it -- "
+                              "`p.param.update(const=<an equal but distinct object>)` returns normally where `p.const = <that object>` raises TypeError" % norm(at)[:70],
+                 key=f.qualname + "::key-passes-the-setter-by", input="p.param.update(c=(1, 2)) on a constant c holding another (1, 2)")
+    else:
+        ctx.ok(rule, f, lp, "every key given to update is handed to setattr (no `continue`, no conditional setattr in the key loop)")
